@@ -490,4 +490,19 @@ func init() {
 		File: "reify.go", Old: "	return reflect.ValueOf(b).Convert(t), nil", New: "	_ = t\n	return reflect.ValueOf(b), nil", Expect: "R07h/ucfg.reifyBool"})
 	addControl(control{Prop: "C07", Name: "string-converted-in-local", Rule: "R07h", Kind: "refactor",
 		File: "reify.go", Old: "		return reflect.ValueOf(s).Convert(baseType), nil", New: "		sv := reflect.ValueOf(s)\n		sv = sv.Convert(baseType)\n		return sv, nil"})
+	// ---------------- C05 ----------------
+	addControl(control{Prop: "C05", Name: "generic-image-with-unreadable-type", Rule: "R05a", Kind: "mutant", Quick: true,
+		File: "types.go", Old: "func (c *cfgFloat) reify(*options) (interface{}, error)     { return c.f, nil }", New: "func (c *cfgFloat) reify(*options) (interface{}, error)     { return complex(c.f, 0), nil }", Expect: "R05a/(*ucfg.cfgFloat).reify"})
+	addControl(control{Prop: "C05", Name: "interface-keyed-maps-rejected", Rule: "R05b", Kind: "mutant", Quick: true,
+		File: "merge.go", Old: "	if k != reflect.String && k != reflect.Interface {\n		return raiseKeyInvalidTypeMerge(cfg, from.Type())", New: "	if k != reflect.String {\n		return raiseKeyInvalidTypeMerge(cfg, from.Type())", Expect: "R05b/ucfg.normalizeMapInto/key kinds"})
+	addControl(control{Prop: "C05", Name: "struct-fields-stored-directly", Rule: "R05c", Kind: "mutant",
+		File: "merge.go", Old: "			name = fieldName(name, stField.Name)\n			err = normalizeSetField(cfg, opts, tagOpts, name, v.Field(i))", New: "			name = fieldName(name, stField.Name)\n			var val value\n			val, err = normalizeValue(opts, tagOpts, context{parent: cfgSub{cfg}, field: name}, v.Field(i))\n			if err == nil {\n				cfg.fields.set(name, val)\n			}", Expect: "R05c/ucfg.normalizeStructInto"})
+	addControl(control{Prop: "C05", Name: "later-scalar-overwrites-silently", Rule: "R05d", Kind: "mutant", Quick: true,
+		File: "merge.go", Old: "	case isNil(old):\n		return p.SetValue(cfg, opts, val)", New: "	case isNil(old) || !isSub(val):\n		return p.SetValue(cfg, opts, val)", Expect: "R05d/ucfg.normalizeSetField/store only over nothing"})
+	addControl(control{Prop: "C05", Name: "object-merged-into-scalar", Rule: "R05d", Kind: "mutant",
+		File: "merge.go", Old: "	case isSub(old) && isSub(val):", New: "	case isSub(val):", Expect: "R05d/ucfg.normalizeSetField/merge only object with object"})
+	addControl(control{Prop: "C05", Name: "kind-of-unchased-value", Rule: "R05e", Kind: "mutant",
+		File: "merge.go", Old: ") (value, Error) {\n	v = chaseValue(v)\n\n	switch v.Type() {", New: ") (value, Error) {\n	v = chaseValuePointers(v)\n\n	switch v.Type() {", Expect: "R05e/ucfg.normalizeValue"})
+	addControl(control{Prop: "C05", Name: "collision-switch-as-if-chain", Rule: "R05d", Kind: "refactor", Quick: true,
+		File: "merge.go", Old: "	switch {\n	case !isNil(old) && isNil(val):\n		return nil\n	case isNil(old):\n		return p.SetValue(cfg, opts, val)\n	case isSub(old) && isSub(val):", New: "	if isNil(old) {\n		return p.SetValue(cfg, opts, val)\n	}\n	if isNil(val) {\n		return nil\n	}\n	switch {\n	case isSub(old) && isSub(val):"})
 }
